@@ -12,6 +12,7 @@ pub struct Report {
     pub notes: BTreeSet<String>,
     pub max_samples: usize,
     pub max_violations: usize,
+    pub max_per_kind: u64,
     pub exhaustive: Option<bool>,
 }
 
@@ -25,7 +26,8 @@ impl Report {
             violations: vec![],
             notes: BTreeSet::new(),
             max_samples: 6,
-            max_violations: 40,
+            max_violations: std::env::var("LLGV_MAX_VIOL").ok().and_then(|x| x.parse().ok()).unwrap_or(400),
+            max_per_kind: std::env::var("LLGV_MAX_PER_KIND").ok().and_then(|x| x.parse().ok()).unwrap_or(4),
             exhaustive: None,
         }
     }
@@ -66,7 +68,10 @@ impl Report {
     pub fn violation(&mut self, kind: &str, tags: &[String], detail: Value, replay: Value) {
         self.inc("violations");
         self.inc(&format!("violations.{kind}"));
-        if self.violations.len() < self.max_violations {
+        // stratified: keep a few witnesses of every kind so that a frequent (known) kind can never
+        // crowd out a rare fresh one
+        let per_kind = self.get(&format!("violations.{kind}"));
+        if per_kind <= self.max_per_kind && self.violations.len() < self.max_violations {
             self.violations.push(json!({
                 "property": self.prop,
                 "kind": kind,
